@@ -1900,4 +1900,56 @@ theorem page_ids_nodup (tr : NsD) (h : simpleRun tr = true) : (idsOf (nsPageItem
     obtain ⟨s₂, hs₂, hsb₂⟩ := hN b₂ hb₂
     exact nested_decode (hok s₁ hs₁) (hok s₂ hs₂) hsb₁ hsb₂ e
 
+/-! ## Files do not overwrite each other; executable hypotheses -/
+
+theorem dropLast_getLastD_inj {a b : List Str} (ha : a ≠ []) (hb : b ≠ []) (h1 : a.dropLast = b.dropLast)
+    (h2 : a.getLastD [] = b.getLastD []) : a = b := by
+  rw [← List.dropLast_concat_getLast ha, ← List.dropLast_concat_getLast hb, h1]
+  congr 2
+  rw [List.getLastD_eq_getLast?, List.getLastD_eq_getLast?, List.getLast?_eq_some_getLast ha, List.getLast?_eq_some_getLast hb] at h2
+  simpa using h2
+
+/-- No two types are written to the same file, and no type page takes the place of a namespace page. -/
+theorem typePagePath_inj {a b : CType} (ha : a.comps ≠ []) (hb : b.comps ≠ []) (h : typePagePath a = typePagePath b) :
+    a.comps = b.comps ∧ a.major = b.major ∧ a.minor = b.minor := by
+  unfold typePagePath at h
+  have h1 := List.append_inj' h (by simp)
+  have h2 : a.comps.getLastD [] ++ versionSuffix a.major a.minor = b.comps.getLastD [] ++ versionSuffix b.major b.minor := by
+    have := h1.2
+    simp only [List.cons.injEq, and_true] at this
+    exact List.append_cancel_right this
+  obtain ⟨e1, e2, e3⟩ := versionSuffix_inj h2
+  exact ⟨dropLast_getLastD_inj ha hb h1.1 e1, e2, e3⟩
+
+theorem typePagePath_ne_nsPagePath (t : CType) (ns : List Str) : typePagePath t ≠ nsPagePath ns := by
+  intro h
+  unfold typePagePath nsPagePath at h
+  have h1 := List.append_inj' h (by simp)
+  have h2 := h1.2
+  simp only [List.cons.injEq, and_true] at h2
+  -- "…_<minor>.html" = "index.html": cancel ".html", the left side contains '_'
+  have e : indexPage = "index".toList ++ ".html".toList := by decide
+  rw [e] at h2
+  have h3 := List.append_cancel_right h2
+  have : '_' ∈ "index".toList := by
+    rw [← h3]; simp [versionSuffix]
+  revert this; decide
+
+theorem validCompB_iff {c : Str} : validCompB c = true ↔ ValidComp c := by
+  simp [validCompB, ValidComp, List.all_eq_true]
+
+
+
+theorem runOk_of_runOkB {run : NsD} (h : runOkB run = true) : RunOk run := by
+  simp only [runOkB, Bool.and_eq_true, List.all_eq_true, Bool.not_eq_true', List.isEmpty_eq_false_iff] at h
+  exact ⟨h.1, fun m hm => ⟨(h.2 m hm).1, fun c hc => validCompB_iff.mp ((h.2 m hm).2 c hc)⟩⟩
+
+
+
+theorem closed_of_closedB {runs : List NsD} (h : closedB runs = true) : Closed runs := by
+  intro run hrun ct hct
+  simp only [closedB, List.all_eq_true, Bool.and_eq_true, List.any_eq_true, beq_iff_eq] at h
+  obtain ⟨hv, tgt, htgt, hname, hmem⟩ := h run hrun ct hct
+  exact ⟨validCompB_iff.mp hv, tgt, htgt, hname, by simpa using hmem⟩
+
 end NunavutVerif.Html
